@@ -8,6 +8,7 @@ Log == ndJsonDeserialize(IOEnv.TRACE_FILE)
 VARIABLES l, st, bad, dead
 Judge(s, e) == CASE e.ev = "Encode" -> EncodeJudge(e.space, e.name, e.accepted, e.code, e.back)
                  [] e.ev = "Cross" -> CrossJudge(e.space, e.name, e.accepted)
+                 [] e.ev = "Placed" -> (IF ~e.accepted \/ ~e.present THEN "KnownNameAcceptedWhereverItStands" ELSE "ok")
                  [] e.ev = "Tag" -> TagJudge(e.what, e.tag)
                  [] OTHER -> "UnknownEvent"
 Effect(s, e) == s
